@@ -51,7 +51,7 @@ ParamsOf(e) ==
                                                        P("temperature", <<"0.1", "1", "0.01">>) >>
       [] e = "Kauri" -> << P("max_clusters", <<"1", "2", "3", "4">>), P("max_depth", <<"none", "1", "2">>),
                            P("min_samples_split", <<"2", "3", "4">>), P("min_samples_leaf", <<"1", "2">>),
-                           P("max_features", <<"none", "1", "d">>), P("max_leaves", <<"none", "2", "3">>),
+                           P("max_features", <<"none", "1", "d", "d+2">>), P("max_leaves", <<"none", "2", "3">>),
                            P("kernel", <<"linear", "rbf", "precomputed">>) >>
 
 DataParams == IF AWKWARD
